@@ -124,6 +124,11 @@ pub struct QuerySpec {
     /// compiler has to refuse such a query.
     #[serde(default)]
     pub extra_select: Vec<(String, String)>,
+    /// The filtered first FROM item is written as a CTE named like the table it reads
+    /// (`WITH orders AS (SELECT * FROM main.orders AS o WHERE ...) ... FROM orders AS o`):
+    /// the CTE shadows the table. Needs a catalogue with schema-qualified paths.
+    #[serde(default)]
+    pub shadow_cte: Option<String>,
 }
 
 impl QuerySpec {
@@ -148,7 +153,9 @@ impl QuerySpec {
     fn from_clause_as(&self, flat: bool) -> String {
         let mut s = String::new();
         for (i, f) in self.from.iter().enumerate() {
-            if i == 0 && !self.inner_where.is_empty() && !flat {
+            if i == 0 && !self.inner_where.is_empty() && !flat && self.shadow_cte.is_some() {
+                s.push_str(&format!("{} AS {}", f.table, f.alias));
+            } else if i == 0 && !self.inner_where.is_empty() && !flat {
                 s.push_str(&format!("(SELECT * FROM {} AS {} WHERE {}) AS {}", f.table, f.alias, self.inner_where.join(" AND "), f.alias));
             } else if i == 0 {
                 s.push_str(&format!("{} AS {}", f.table, f.alias));
@@ -209,6 +216,9 @@ impl QuerySpec {
             return r.clone();
         }
         let body = self.sql_body(population);
+        if let (Some(schema), Some(f), true, true) = (&self.shadow_cte, self.from.first(), !self.inner_where.is_empty(), self.cte.is_none()) {
+            return format!("WITH {t} AS (SELECT * FROM {s}.{t} AS {a} WHERE {w}) {b}", t = f.table, s = schema, a = f.alias, w = self.inner_where.join(" AND "), b = body);
+        }
         match &self.cte {
             None => body,
             Some(c) => format!("WITH s AS ({}) {}", c, body),
